@@ -366,12 +366,15 @@ def value_check(pid, tier_, plan, kbits=14, rule='', extra_execs=(), all_known=F
     t0 = time.time()
     rng = random.Random(seed())
     execs = []
-    for sol, evs, na, npt in plan:        # at most 6 assignments per process (one TLC batch must stay small)
+    for sol, evs, na, npt in plan:        # at most 6 assignments and about 700 evaluations per process (one TLC batch must stay small)
+        nev = len(evs) if evs is not None else len(CAT[sol]['caps'])
+        per = max(1, int((npt + 1.5) * nev * 2))
+        chunk = max(1, min(6, 700 // per))
+        oat = min(10 if tier_ == 'quick' else 40, max(4, 500 // (nev * 2)))
         left = na
         while left > 0:
-            execs.append(gen.gen_values(rng, sol, nassign=min(6, left), npts=npt, evaluators=evs, mix=mix,
-                                        oat=(10 if tier_ == 'quick' else 40) if left <= 6 else 0))
-            left -= 6
+            execs.append(gen.gen_values(rng, sol, nassign=min(chunk, left), npts=npt, evaluators=evs, mix=mix, oat=oat if left <= chunk else 0))
+            left -= chunk
     execs += list(extra_execs)
     # exact zeros: one assignment per zeroable parameter with only that parameter exactly 0 (all of them for solutions with
     # at most 48 such parameters -- every solution but two -- and in the thorough tier, a random 8 otherwise), one assignment
